@@ -189,6 +189,7 @@ FaultReply(ch, f) ==
     [] f = "otherkey"  -> Sig("other", m, e[3], TRUE)
     [] f = "wrongbf"   -> Sig(key, m, NoBf, TRUE)
     [] f = "identity"  -> Sig(key, m, e[3], FALSE)
+    [] f = "smallorder" -> Sig("nongroup", GarbageMsg, NoBf, TRUE)   \* sigma1 on the curve but outside G1: not a signature of any key
     [] OTHER           -> NoSig
 
 Fault(ch, f) ==
